@@ -33,8 +33,8 @@
      of each (point, shape) pair supplied with the case (see Geo/Corr.v).
 
    SCALED INTEGERS.  All real quantities are kept as integers in the domain
-         S_p :  v  |->  v * D * p            D = 2^32 - 1,  p = 2^k, k >= 80 chosen per case
-   (the functions below take the power p itself, so that it is computed once per case)
+         S_k :  v  |->  v * D * 2^k          D = 2^32 - 1,  k >= 80 chosen per case
+   (multiplication by 2^k is written [Z.shiftl _ k], which is cheap under vm_compute)
    so that decoded grid coordinates ([lon_S], [lat_S]), float64 query coordinates (dyadic
    rationals m*2^e, [to_S]) and the constants 180, 90, geoTolerance are all exact integers and are
    compared with Z comparisons (i.e. by cross-multiplication). *)
@@ -52,13 +52,15 @@ Definition magic3 : Z := 0x00FF00FF00FF00FF.
 Definition magic4 : Z := 0x0000FFFF0000FFFF.
 Definition magic5 : Z := 0x00000000FFFFFFFF.
 
-(* 2^64 as a literal (Numeric.Model.two64 is [2 ^ 64]; Proofs.w64_two64 shows they are equal):
-   the cell recursion evaluates [shl64]/[u64g] a few hundred thousand times per case *)
-Definition w64 : Z := 18446744073709551616.
-Definition u64g (x : Z) : Z := x mod w64.            (* = Numeric.Model.u64 *)
+(* Truncation to uint64, written with a mask: [Z.modulo] costs ~50 us per call under vm_compute
+   and the cell recursion truncates a few hundred thousand times per case.
+   Proofs.u64g_u64: u64g x = Numeric.Model.u64 x = x mod 2^64 for every x. *)
+Definition w64 : Z := 18446744073709551616.                    (* 2^64 *)
+Definition ones64 : Z := 0xFFFFFFFFFFFFFFFF.
+Definition u64g (x : Z) : Z := Z.land x ones64.
 
 (* Go's [v << s] on uint64 *)
-Definition shl64 (v s : Z) : Z := Z.shiftl v s mod w64.
+Definition shl64 (v s : Z) : Z := u64g (Z.shiftl v s).
 
 (* v = (v | (v << s)) & m *)
 Definition il_stage (v s m : Z) : Z := Z.land (Z.lor v (shl64 v s)) m.
@@ -104,22 +106,24 @@ Definition morton (x y : Z) : Z := interleave x y.
 Definition morton_x (h : Z) : Z := deinterleave h.                (* MortonUnhashLon before unscale *)
 Definition morton_y (h : Z) : Z := deinterleave (Z.shiftr h 1).   (* MortonUnhashLat before unscale *)
 
-(* decoded coordinates in S_p (exact rational maps; see header); p = 2^k *)
-Definition lon_S (p x : Z) : Z := (x * 360 - 180 * D) * p.
-Definition lat_S (p y : Z) : Z := (y * 180 - 90 * D) * p.
-Definition unhash_lon_S (p h : Z) : Z := lon_S p (morton_x h).
-Definition unhash_lat_S (p h : Z) : Z := lat_S p (morton_y h).
+(* decoded coordinates in S_k (exact rational maps; see header) *)
+Definition c180D : Z := 773094113100.                            (* 180 * D *)
+Definition c90D : Z := 386547056550.                             (* 90 * D *)
+Definition lon_S (k x : Z) : Z := Z.shiftl (x * 360 - c180D) k.
+Definition lat_S (k y : Z) : Z := Z.shiftl (y * 180 - c90D) k.
+Definition unhash_lon_S (k h : Z) : Z := lon_S k (morton_x h).
+Definition unhash_lat_S (k h : Z) : Z := lat_S k (morton_y h).
 
-(* the constants in S_p *)
-Definition c180_S (p : Z) : Z := 180 * D * p.
-Definition c90_S (p : Z) : Z := 90 * D * p.
-Definition res_lon_S (p : Z) : Z := 360 * p.          (* one grid step 360/D *)
-Definition res_lat_S (p : Z) : Z := 180 * p.          (* one grid step 180/D *)
+(* the constants in S_k *)
+Definition c180_S (k : Z) : Z := Z.shiftl c180D k.
+Definition c90_S (k : Z) : Z := Z.shiftl c90D k.
+Definition res_lon_S (k : Z) : Z := Z.shiftl 360 k.      (* one grid step 360/D *)
+Definition res_lat_S (k : Z) : Z := Z.shiftl 180 k.      (* one grid step 180/D *)
 
 (* scaleLon/scaleLat as exact maps followed by truncation (no float rounding): the grid index
-   of a coordinate given in S_p, for lon in [-180,180], lat in [-90,90] *)
-Definition scale_lon_exact (p l : Z) : Z := (l + c180_S p) / res_lon_S p.
-Definition scale_lat_exact (p l : Z) : Z := (l + c90_S p) / res_lat_S p.
+   of a coordinate given in S_k, for lon in [-180,180], lat in [-90,90] *)
+Definition scale_lon_exact (k l : Z) : Z := (l + c180_S k) / res_lon_S k.
+Definition scale_lat_exact (k l : Z) : Z := (l + c90_S k) / res_lat_S k.
 
 (* float64 bit pattern -> dyadic rational m * 2^e (None for NaN / Inf) *)
 Record dyadic := { dm : Z; de : Z }.
@@ -133,12 +137,12 @@ Definition f64_dyadic (bits : Z) : option dyadic :=
 
 Definition min_scale : Z := 80.
 Definition scale_of (ds : list dyadic) : Z := fold_left (fun k d => Z.max k (- de d)) ds min_scale.
-(* value of d in S_(2^k); exact when de d + k >= 0, which [scale_of] guarantees *)
-Definition to_S (k : Z) (d : dyadic) : Z := dm d * 2 ^ (de d + k) * D.
+(* value of d in S_k; exact when de d + k >= 0, which [scale_of] guarantees *)
+Definition to_S (k : Z) (d : dyadic) : Z := Z.shiftl (dm d) (de d + k) * D.
 
 (* geoTolerance = 1e-6 as a float64: 0x3EB0C6F7A0B5ED8D = 4722366482869645 * 2^-72 *)
 Definition geo_tolerance_bits : Z := 0x3EB0C6F7A0B5ED8D.
-Definition tol_S (k : Z) : Z := 4722366482869645 * 2 ^ (k - 72) * D.     (* in S_(2^k), k >= 72 *)
+Definition tol_S (k : Z) : Z := Z.shiftl 4722366482869645 (k - 72) * D.     (* k >= 72 *)
 
 (* ---------- rectangles (geo.go) ---------- *)
 
@@ -188,6 +192,57 @@ Definition covers (c : cell) (h : Z) : bool := Z.shiftr h (c_res c) =? Z.shiftr 
 
 Inductive action := Emit (on_boundary : bool) | Recurse | Drop.
 
+(* computeGeoRange: the two halves (start, end) of the cell [term] at [shift] *)
+Definition children (term shift : Z) : (Z * Z) * (Z * Z) :=
+  let split := Z.lor term (shl64 1 shift) in
+  let upperMax := if shift <? 63 then Z.lor term (u64g (shl64 1 (shift + 1) - 1)) else w64 - 1 in
+  ((term, u64g (split - 1)), (split, upperMax)).
+
+Section Recursion.
+  (* the decision relateAndRecurse takes for the cell (start, end, res); None = refuse to decide
+     (never for the model's own [relate_action]; used by Geo/Corr.v to stop when a float
+     comparison of the real code is too close to call) *)
+  Variable decide : Z -> Z -> Z -> option action.
+
+  (* None = out of fuel, a refused decision, or [res-1] on res = 0 (uint wrap-around; unreachable,
+     see Proofs.compute_fuel_sufficient).  The list is in the order the Go code appends;
+     onBoundary / notOnBoundary are its two sublists. *)
+  Fixpoint compute_gen (fuel : nat) (term shift : Z) : option (list cell) :=
+    match fuel with
+    | O => None
+    | S f =>
+        let go (se : Z * Z) :=
+          match decide (fst se) (snd se) shift with
+          | Some (Emit b) => Some [ {| c_start := fst se; c_res := shift; c_on_boundary := b |} ]
+          | Some Recurse => if shift <=? 0 then None else compute_gen f (fst se) (shift - 1)
+          | Some Drop => Some []
+          | None => None
+          end in
+        match go (fst (children term shift)), go (snd (children term shift)) with
+        | Some a, Some b => Some (a ++ b)
+        | _, _ => None
+        end
+    end.
+
+  (* The same recursion followed only along the cells that contain Morton code [h]:
+     Some (Some c) = the emitted cell covering h, Some None = h is in no emitted cell.
+     (Proofs.point_walk_spec: agrees with membership in compute_gen's result.) *)
+  Fixpoint walk_gen (fuel : nat) (h term shift : Z) : option (option cell) :=
+    match fuel with
+    | O => None
+    | S f =>
+        let se := if Z.testbit h shift then snd (children term shift) else fst (children term shift) in
+        match decide (fst se) (snd se) shift with
+        | Some (Emit b) => Some (Some {| c_start := fst se; c_res := shift; c_on_boundary := b |})
+        | Some Recurse => if shift <=? 0 then None else walk_gen f h (fst se) (shift - 1)
+        | Some Drop => Some None
+        | None => None
+        end
+    end.
+End Recursion.
+
+Definition geo_range_fuel : nat := 64.
+
 Section Range.
   (* decoders of a grid coordinate and the query rectangle, in one common ordered domain *)
   Variables (dlon dlat : Z -> Z) (q : rect) (check_boundaries : bool).
@@ -199,59 +254,25 @@ Section Range.
 
   Definition level_of (res : Z) : Z := Z.shiftr (geo_bits_shift1 - res) 1.
 
-  (* the three-way decision of relateAndRecurse *)
-  Definition relate_action (start end_ res : Z) : action :=
-    let r := cell_rect start end_ in
+  (* the three-way decision of relateAndRecurse, given the decoded corners r of the cell *)
+  Definition relate_rect (r : rect) (res : Z) : action :=
     let within := (res mod geo_precision_step =? 0) && rect_within r q in
     if within || ((level_of res =? geo_detail_level) && rect_intersects r q)
     then Emit (negb within && check_boundaries)
     else if (level_of res <? geo_detail_level) && rect_intersects r q
          then Recurse else Drop.
 
-  (* computeGeoRange: the two halves (start, end) of the cell [term] at [shift] *)
-  Definition children (term shift : Z) : (Z * Z) * (Z * Z) :=
-    let split := Z.lor term (shl64 1 shift) in
-    let upperMax := if shift <? 63 then Z.lor term (u64g (shl64 1 (shift + 1) - 1)) else w64 - 1 in
-    ((term, u64g (split - 1)), (split, upperMax)).
+  Definition relate_action (start end_ res : Z) : action := relate_rect (cell_rect start end_) res.
 
-  (* None = out of fuel, or [res-1] on res = 0 (uint wrap-around; unreachable, see
-     Proofs.compute_fuel_sufficient).  The list is in the order the Go code appends;
-     onBoundary / notOnBoundary are its two sublists. *)
-  Fixpoint compute_geo_range (fuel : nat) (term shift : Z) : option (list cell) :=
-    match fuel with
-    | O => None
-    | S f =>
-        let go (se : Z * Z) :=
-          match relate_action (fst se) (snd se) shift with
-          | Emit b => Some [ {| c_start := fst se; c_res := shift; c_on_boundary := b |} ]
-          | Recurse => if shift <=? 0 then None else compute_geo_range f (fst se) (shift - 1)
-          | Drop => Some []
-          end in
-        match go (fst (children term shift)), go (snd (children term shift)) with
-        | Some a, Some b => Some (a ++ b)
-        | _, _ => None
-        end
-    end.
+  Definition compute_geo_range (fuel : nat) (term shift : Z) : option (list cell) :=
+    compute_gen (fun s e r => Some (relate_action s e r)) fuel term shift.
 
   (* ComputeGeoRange(ctx, 0, GeoBitsShift1Minus1, ...) *)
-  Definition geo_range_fuel : nat := 64.
   Definition compute_geo_range_top : option (list cell) :=
     compute_geo_range geo_range_fuel 0 geo_bits_shift1_minus1.
 
-  (* The same recursion followed only along the cells that contain Morton code [h]:
-     Some (Some c) = the emitted cell covering h, Some None = h is in no emitted cell.
-     (Proofs.point_walk_spec: agrees with membership in compute_geo_range's result.) *)
-  Fixpoint point_walk (fuel : nat) (h term shift : Z) : option (option cell) :=
-    match fuel with
-    | O => None
-    | S f =>
-        let se := if Z.testbit h shift then snd (children term shift) else fst (children term shift) in
-        match relate_action (fst se) (snd se) shift with
-        | Emit b => Some (Some {| c_start := fst se; c_res := shift; c_on_boundary := b |})
-        | Recurse => if shift <=? 0 then None else point_walk f h (fst se) (shift - 1)
-        | Drop => Some None
-        end
-    end.
+  Definition point_walk (fuel : nat) (h term shift : Z) : option (option cell) :=
+    walk_gen (fun s e r => Some (relate_action s e r)) fuel h term shift.
   Definition point_walk_top (h : Z) : option (option cell) :=
     point_walk geo_range_fuel h 0 geo_bits_shift1_minus1.
 End Range.
@@ -282,8 +303,8 @@ Definition doc_filter (early_return : bool) (P : Z -> bool) (vals : list Z) : bo
 Definition doc_filter_spec (P : Z -> bool) (vals : list Z) : bool := existsb P vals.
 
 (* buildRectFilter's point predicate on a Morton code *)
-Definition rect_point_pred (p tol : Z) (q : rect) (h : Z) : bool :=
-  bbox_contains tol (unhash_lon_S p h) (unhash_lat_S p h) q.
+Definition rect_point_pred (k tol : Z) (q : rect) (h : Z) : bool :=
+  bbox_contains tol (unhash_lon_S k h) (unhash_lat_S k h) q.
 
 (* scorch presents a document's doc values in term order; for shift-0 terms that is ascending
    int64(morton) (Numeric: encode_order), equal values merged *)
@@ -304,9 +325,9 @@ Definition box_doc_match (cs : list cell) (filt : bool) (vals : list Z) : bool :
   existsb (fun h => existsb (fun c => covers c h && (negb (c_on_boundary c) || filt)) cs) vals.
 
 (* the same through point_walk (one emitted cell at most covers a given h) *)
-Definition box_doc_match_walk (p : Z) (q : rect) (check_boundaries filt : bool) (vals : list Z) : option bool :=
+Definition box_doc_match_walk (k : Z) (q : rect) (check_boundaries filt : bool) (vals : list Z) : option bool :=
   fold_left (fun acc h =>
-    match acc, point_walk_top (lon_S p) (lat_S p) q check_boundaries h with
+    match acc, point_walk_top (lon_S k) (lat_S k) q check_boundaries h with
     | Some a, Some (Some c) => Some (a || (negb (c_on_boundary c) || filt))
     | Some a, Some None => Some a
     | _, _ => None
@@ -314,13 +335,13 @@ Definition box_doc_match_walk (p : Z) (q : rect) (check_boundaries filt : bool) 
 
 (* ---------- date-line split (GeoBoundingBoxQuery.Searcher, searcher.boxSearcher) ---------- *)
 
-(* a query box as given: top-left (lon,lat), bottom-right (lon,lat), in S_p *)
+(* a query box as given: top-left (lon,lat), bottom-right (lon,lat), in S_k *)
 Record qbox := { tl_lon : Z; tl_lat : Z; br_lon : Z; br_lat : Z }.
 
-Definition split_dateline (p : Z) (b : qbox) : list rect :=
+Definition split_dateline (k : Z) (b : qbox) : list rect :=
   if br_lon b <? tl_lon b then
-    [ {| rminx := - c180_S p; rminy := br_lat b; rmaxx := br_lon b; rmaxy := tl_lat b |};
-      {| rminx := tl_lon b; rminy := br_lat b; rmaxx := c180_S p; rmaxy := tl_lat b |} ]
+    [ {| rminx := - c180_S k; rminy := br_lat b; rmaxx := br_lon b; rmaxy := tl_lat b |};
+      {| rminx := tl_lon b; rminy := br_lat b; rmaxx := c180_S k; rmaxy := tl_lat b |} ]
   else [ {| rminx := tl_lon b; rminy := br_lat b; rmaxx := br_lon b; rmaxy := tl_lat b |} ].
 
 (* SPEC: the region a (possibly date-line crossing) box denotes *)
